@@ -638,6 +638,13 @@ func genRebind(r *rand.Rand, i int) caseIn {
 			bi.SSRC = otherStream(c)
 		}
 		bi.Unbind = r.Intn(5) < 2
+		// round 5: the new binding's StreamInfo negotiated something else than the case's stream
+		if r.Intn(2) == 0 {
+			bi.Twcc = genBindTwcc(r)
+		}
+		if r.Intn(4) == 0 {
+			bi.Nack = 1 + r.Intn(2)
+		}
 		in.Binds = append(in.Binds, bi)
 	}
 	in.Writes = nil
@@ -695,6 +702,135 @@ func genRebind(r *rand.Rand, i int) caseIn {
 	}
 
 	return in
+}
+
+// the transport-cc ID a further binding negotiated: mostly a valid one-byte ID (it may coincide with
+// the case's), sometimes none, sometimes one outside 1..14
+func genBindTwcc(r *rand.Rand) int {
+	switch r.Intn(10) {
+	case 0:
+		return -1
+	case 1:
+		return []int{15, 16, 200, 255, 256, 261}[r.Intn(6)]
+	}
+
+	return 1 + r.Intn(14)
+}
+
+// ---- several local streams with DIFFERENT negotiated configurations on one chain (round 5) ----
+//
+// Two or three local streams (distinct SSRCs) bound to one chain, every StreamInfo with a
+// transport-cc ID of its own (mostly pairwise distinct valid IDs; sometimes none / one outside
+// 1..14) and its own nack feedback; all bound before the first Write or one after the other while
+// the application writes; the Writes are spread over all live bindings, in any interleaving, so that
+// streams bound EARLIER are used after later ones were bound.  Packets carry the SSRC of their
+// stream and, half of the time, an application extension (3 bytes, as abs-send-time) under the ID
+// that ANOTHER stream of the chain uses for transport-cc.  The chain has a TWCC header-extension
+// member (three cases out of four) and often a nack responder.
+func genStreams(r *rand.Rand, i int) caseIn {
+	in := genCase(r, "streams")
+	if i%4 != 3 {
+		at := r.Intn(len(in.Members) + 1)
+		in.Members = append(in.Members[:at:at], append([]memberIn{genMember(r, 6, 0)}, in.Members[at:]...)...)
+		if in.Cfg.TwccID == 0 || (in.Cfg.TwccID > 14 && r.Intn(4) != 0) {
+			in.Cfg.TwccID = 1 + r.Intn(14)
+		}
+	}
+	if i%2 == 0 {
+		in.Cfg.Nack = r.Intn(3) != 0
+		withResponder(r, &in)
+	}
+	c := in.Cfg
+	in.Nacks = nil
+	if len(in.Reads) > 2 {
+		in.Reads = in.Reads[:2]
+	}
+	if len(in.CReads) > 1 {
+		in.CReads = in.CReads[:1]
+	}
+	if len(in.CWrites) > 1 {
+		in.CWrites = in.CWrites[:1]
+	}
+	nw := 4 + r.Intn(7)
+	nb := 1 + r.Intn(2)
+	upFront := r.Intn(2) == 0
+	ids := []int{c.TwccID}
+	ssrcs := []uint32{c.SSRC}
+	for k := 0; k < nb; k++ {
+		bi := bindIn{SSRC: c.SSRC + uint32(1000*(k+1))} //nolint:gosec
+		if !upFront {
+			bi.After = r.Intn(nw - 1)
+			if k > 0 && in.Binds[k-1].After > bi.After {
+				bi.After = in.Binds[k-1].After
+			}
+		}
+		if r.Intn(8) != 0 {
+			bi.Twcc = genBindTwcc(r)
+			for try := 0; try < 4 && bi.Twcc > 0 && bi.Twcc < 15 && containsInt(ids, bi.Twcc); try++ {
+				bi.Twcc = 1 + r.Intn(14)
+			}
+		}
+		if r.Intn(3) == 0 {
+			bi.Nack = 1 + r.Intn(2)
+		}
+		ids = append(ids, bi.twccID(c))
+		ssrcs = append(ssrcs, bi.SSRC)
+		in.Binds = append(in.Binds, bi)
+	}
+	in.Writes = nil
+	seq := uint16(r.Intn(65536)) //nolint:gosec
+	errID := 1500
+	nbound := 1
+	for w := 0; w < nw; w++ {
+		for nbound <= nb && in.Binds[nbound-1].After <= w {
+			nbound++
+		}
+		via := r.Intn(nbound)
+		ck := c
+		ck.SSRC = ssrcs[via]
+		shape := []int{0, 3, 3, 4, 5, -1}[r.Intn(6)]
+		wi := writeIn{Pkt: genPkt(r, ck, seq, shape), Via: via}
+		wi.Pkt.H.SSRC = ck.SSRC
+		if other := ids[r.Intn(len(ids))]; other >= 1 && other <= 14 && other != ids[via] && r.Intn(2) == 0 &&
+			(!wi.Pkt.H.Ext || wi.Pkt.H.Profile == 0xBEDE || wi.Pkt.H.Profile == 0x1000) {
+			// an application extension under the ID another stream negotiated for transport-cc
+			h := &wi.Pkt.H
+			if !h.Ext {
+				h.Ext, h.Profile = true, 0xBEDE
+			}
+			keep := h.Exts[:0]
+			for _, e := range h.Exts {
+				if int(e.ID) != other {
+					keep = append(keep, e)
+				}
+			}
+			ast := make([]byte, 3)
+			r.Read(ast)
+			h.Exts = append(keep, extIn{ID: uint8(other), Payload: ast}) //nolint:gosec
+		}
+		seq++
+		for j := 0; j < 4; j++ {
+			rp := respIn{N: r.Intn(3000)}
+			if r.Intn(8) == 0 {
+				errID++
+				rp.Err = errID
+			}
+			wi.Resp = append(wi.Resp, rp)
+		}
+		in.Writes = append(in.Writes, wi)
+	}
+
+	return in
+}
+
+func containsInt(xs []int, x int) bool {
+	for _, y := range xs {
+		if y == x {
+			return true
+		}
+	}
+
+	return false
 }
 
 // an already generated case whose stream is bound a second time half way through its writes (same
@@ -869,6 +1005,13 @@ func main() {
 		for i := 0; i < ncd; i++ {
 			add(genCloseDup(r3, i), "close-dup")
 		}
+		// round 5, from a generator of its own: several local streams whose StreamInfos negotiated
+		// different transport-cc IDs / feedback on one chain
+		r4 := rand.New(rand.NewSource(o.Seed*15485863 + 41)) //nolint:gosec
+		nst := o.Scale(120, 4000)
+		for i := 0; i < nst; i++ {
+			add(genStreams(r4, i), "streams")
+		}
 	}
 	results := make([]*result, len(ins))
 	var wg sync.WaitGroup
@@ -905,6 +1048,8 @@ func main() {
 		"instrumented members' counters snapshotted after every call; 'rebind' cases (and a sixth of the random ones) call BindLocalStream "+
 		"again while writing (same SSRC with / without Unbind, a second stream), each binding with a next writer of its own; 'close-dup' cases have "+
 		"members whose Close errors are one value or wrap one another, the Close error is projected entry by entry; "+
+		"'streams' cases (and half of the extra bindings of 'rebind' cases) give every local stream a StreamInfo of its own "+
+		"(transport-cc ID, nack feedback), Writes interleaved over all live bindings, packets carrying extensions under other streams' IDs; "+
 		"non-trivial = at least one member and one operation",
 		[]*cq.Set{set}, extra, fails)
 	_ = os.Stdout
@@ -1049,6 +1194,43 @@ func shapeBuckets(res *result) []string {
 				put("bind:same-ssrc-again-no-unbind")
 				if hasResp && bi.After < len(in.Writes) {
 					put("bind:same-ssrc-again-through-responder")
+				}
+			}
+		}
+		// per-binding configurations (round 5)
+		idOf := func(k int) int {
+			if k == 0 {
+				return int(uint8(in.Cfg.TwccID)) //nolint:gosec
+			}
+
+			return int(uint8(in.Binds[k-1].twccID(in.Cfg))) //nolint:gosec
+		}
+		hasHdrExt := false
+		for _, m := range flatten(in.Members) {
+			hasHdrExt = hasHdrExt || m.Kind == 6
+		}
+		for k, bi := range in.Binds {
+			if idOf(k+1) != idOf(0) {
+				put("bind:other-twcc-id-than-first-stream")
+			}
+			if bi.nack(in.Cfg) != in.Cfg.Nack {
+				put("bind:other-nack-feedback-than-first-stream")
+			}
+		}
+		newest := 0
+		for i, o := range res.wops {
+			// bindings are made in order: the newest binding existing at this write
+			for k, bi := range in.Binds {
+				if bi.After <= i && k+1 > newest {
+					newest = k + 1
+				}
+			}
+			if o.via < newest && idOf(o.via) != idOf(newest) && hasHdrExt {
+				put("bind:write-through-older-binding-with-other-twcc-id")
+				for _, e := range in.Writes[i].Pkt.H.Exts {
+					if int(e.ID) == idOf(newest) && in.Writes[i].Pkt.H.Profile != 0 && e.ID != 0 {
+						put("bind:packet-carries-ext-under-newer-streams-twcc-id")
+					}
 				}
 			}
 		}
